@@ -86,3 +86,66 @@ fn vk_c11_repetition_window() {
     kani::cover!(!want && n > 2);
     assert!(g.is_repeated_position() == want);
 }
+
+// ---------------------------------------------------------------------------------------------------------------
+// C11.fifty: Game::is_stalemate_by_fifty_move_rule (verbatim) against the CONTRACT of its callee generate_legal_moves
+// (rebound by scope: fills the list with an arbitrary number of moves -- what C01 says is "the legal moves").
+// ---------------------------------------------------------------------------------------------------------------
+pub mod fifty {
+    use crate::chess::moves::{Move, MoveList};
+    use crate::chess::square::Square;
+
+    pub static mut GEN_CALLS: u8 = 0;
+    pub static mut LEGAL_N: u8 = 0;
+    pub struct Game {
+        pub halfmove_clock: u32,
+    }
+    /// CONTRACT of movegen::generate_legal_moves: pushes the legal moves of `game` (here: an arbitrary number 0..=3 of them)
+    pub fn generate_legal_moves(_game: &Game, list: &mut MoveList) {
+        let n: u8 = kani::any();
+        kani::assume(n <= 3);
+        unsafe {
+            GEN_CALLS += 1;
+            LEGAL_N = n;
+        }
+        let mut i = 0;
+        while i < 3 {
+            if i < n {
+                list.push(Move::quiet(Square::from_index(i), Square::from_index(i + 8)));
+            }
+            i += 1;
+        }
+    }
+    impl Game {
+        //@@ body: chess/game.rs :: impl Game / fn is_stalemate_by_fifty_move_rule => is_stalemate_by_fifty_move_rule pub
+    }
+}
+
+//@ obligation: C11.fifty.rule
+//@ property: C11
+//@ domain: complete
+//@ functions: chess/game.rs::Game::is_stalemate_by_fifty_move_rule
+//@ timeout: 600
+//@ mem_gb: 4
+//@ note: for every halfmove clock (all u32) and every number of legal moves: the fifty-move draw is declared exactly when the clock has reached 100 AND the side to move still has a legal move (so a mate or stalemate on move 100 is not called a fifty-move draw)
+//@ assumes: callee contract of generate_legal_moves (C01: the list is exactly the legal moves); the halfmove clock counts plies since the last capture or pawn move (C02.make_undo.*)
+#[kani::proof]
+#[kani::unwind(5)]
+fn vk_c11_fifty_rule() {
+    let clock: u32 = kani::any();
+    let g = fifty::Game { halfmove_clock: clock };
+    unsafe {
+        fifty::GEN_CALLS = 0;
+        fifty::LEGAL_N = 0;
+    }
+    let got = g.is_stalemate_by_fifty_move_rule();
+    let n = unsafe { fifty::LEGAL_N };
+    kani::cover!(clock >= 100 && n == 0);
+    kani::cover!(clock == 100 && n > 0);
+    if clock >= 100 {
+        assert!(unsafe { fifty::GEN_CALLS } == 1);
+        assert!(got == (n > 0));
+    } else {
+        assert!(!got);
+    }
+}
